@@ -29,7 +29,7 @@ THEOREMS = [
     "chunking_irrelevant_sortagg", "chunking_irrelevant_semijoin", "chunking_irrelevant_hashsemijoin",
     "chunking_irrelevant_simpleagg_unsound", "chunkpath_rowcount",
     # hash = nested loop under KeysComparable; full statements refuted
-    "hash_eq_nl_inner", "hash_eq_nl_semi", "hash_eq_nl_anti", "hash_eq_nl_left_outer", "hash_eq_spec_right_outer", "hash_eq_spec_full_outer", "hashjoin_inner_structural",
+    "hash_eq_nl_inner", "hash_eq_nl_semi", "hash_eq_nl_anti", "hash_semi2_eq_nl", "hash_eq_nl_left_outer", "hash_eq_spec_right_outer", "hash_eq_spec_full_outer", "hashjoin_inner_structural",
     "chunking_irrelevant_hashjoin_inner",
     "hash_eq_nl_unsound_null_key", "hash_eq_nl_unsound_int_width", "hash_anti_unsound_null_key",
     "merge_eq_nl_unsound_null_key",
